@@ -44,6 +44,10 @@ DIRECTED = [
     dict(sh=True, maxN=1, steps=op("bcst", ks=[1, 2]) + op("cancels", ks=[1]) + L(3)),
     # want-block built; cancelled and re-added as want-have in the window; markSent accepts the weaker want
     dict(sh=True, maxN=0, steps=op("wants", wb=[1]) + op("cancels", ks=[1]) + op("wants", wh=[1]) + L(4)),
+    # peer want and broadcast want for one CID share a message entry; cancel + re-add of the peer want in the window:
+    # the broadcast part is withdrawn, msg.Remove deletes the shared entry, the peer want is marked sent but never sent
+    dict(sh=True, maxN=0, steps=op("wants", wb=[5]) + L(1) + op("bcst", ks=[1]) + op("wants", wb=[1]) + L(2)
+         + op("cancels", ks=[1]) + op("wants", wb=[1]) + L(6)),
     # plain runs without any race
     dict(sh=False, maxN=2, steps=op("bcst", ks=[1, 2, 3]) + op("wants", wb=[2], wh=[4]) + L(12) + op("cancels", ks=[1, 2]) + L(6) + op("rb") + L(8)),
     dict(sh=True, maxN=3, steps=op("wants", wb=[1, 2], wh=[3, 4]) + op("bcst", ks=[1, 5]) + L(3) + op("cancels", ks=[2]) + op("wants", wb=[3]) + L(12) + op("rb") + L(10)),
@@ -116,7 +120,7 @@ def run(ctx):
                coverage=not ctx.quick)
     if not ctx.quick:
         # each as-built alternative alone must break the model (otherwise the deviation is not the defect)
-        for flag in ("ReAdd", "Refresh", "Empty", "Mark"):
+        for flag in ("ReAdd", "Refresh", "Empty", "Mark", "Merge"):
             r = ctx.tlc_mc(SPEC, "MCBitswapMQ.tla", "MCBitswapMQ_%s.cfg" % flag, timeout=3000, expect_violation=True)
             if not r["violated"]:
                 ctx.broken("as-built alternative %s does not violate the property in the model" % flag)
